@@ -15,6 +15,31 @@ from .common import attr_stores, ob, strip_ret, traces
 ZC = 'zeroconf._core.Zeroconf'
 
 
+def _probe_roles(ctx: Any, g: FuncInfo) -> Dict[str, str]:
+    """Locals of the probe loop by role: the probe counter (compared with the broadcast count), the
+    next-probe time (advanced by the check interval), the current time (assigned from the clock)."""
+    roles: Dict[str, str] = {}
+    from .common import local_defs
+
+    locs = local_defs(g)
+    for n in walk_local_ordered(g.node):
+        if isinstance(n, ast.Assign) and isinstance(n.value, ast.Call) and call_name(n.value) == 'current_time_millis':
+            roles.setdefault('now', norm(n.targets[-1]))
+    for n in walk_local_ordered(g.node):
+        if isinstance(n, ast.While) and 'REGISTER_BROADCASTS' in norm(n.test) and isinstance(n.test, ast.Compare):
+            for side in (n.test.left, n.test.comparators[0]):
+                if isinstance(side, ast.Name) and side.id in locs:
+                    roles['counter'] = side.id
+        if isinstance(n, ast.If) and isinstance(n.test, ast.Compare) and len(n.test.ops) == 1 and isinstance(n.test.left, ast.Name) and isinstance(n.test.comparators[0], ast.Name):
+            pair = {n.test.left.id, n.test.comparators[0].id}
+            if roles.get('now') in pair and len(pair) == 2:
+                roles['next_time'] = (pair - {roles['now']}).pop()
+    for k in ('counter', 'next_time', 'now'):
+        if k not in roles:
+            raise AnalysisError(f'anchor vanished: {k} of the probe loop in {g.where()}')
+    return roles
+
+
 @rule('C09.ORDER', 'D', expect_min=8)
 def order(ctx: Any) -> List[Ob]:
     """Order of registration on every path: default the host, wait for start,
@@ -55,6 +80,8 @@ def order(ctx: Any) -> List[Ob]:
     call = next(c for c in ct.calls() if call_name(c) == 'current_entry_with_name_and_alias')
     obs.append(ob(R, g, call, 'the conflict check looks for a live pointer of the service type to the proposed instance name', [norm(a) for a in call.args] == [f'{g.params[1]}.type', f'{g.params[1]}.name']))
 
+    roles = _probe_roles(ctx, g)
+
     def eff2(node: Any, evl: Any) -> List[Any]:
         out = []
         if node.kind == 'raise':
@@ -63,8 +90,10 @@ def order(ctx: Any) -> List[Ob]:
             a = node.ast
             if isinstance(a, ast.Assign):
                 t = norm(a.targets[0])
-                if t in ('i', 'next_time'):
-                    out.append(f'{t}={norm(a.value)}')
+                if t == roles['counter']:
+                    out.append(f'i={norm(a.value)}')
+                if t == roles['next_time']:
+                    out.append('next_time=' + ('now' if norm(a.value) == roles['now'] else norm(a.value)))
                 if t.endswith('.name'):
                     out.append('RENAME')
             for c in node.calls():
@@ -80,9 +109,16 @@ def order(ctx: Any) -> List[Ob]:
     obs.append(ob(R, g, 'conflict, renaming allowed', 'the name is changed (and re-validated), the probe count restarts at 0 and the next probe is due now', got2 == {tuple(sorted(('RENAME', 'VALIDATE', 'next_time=now', 'i=0')))}, str(sorted(got2))))
     # the renamed name: instance-N.type, N counting up from 2
     ren = [st for st in walk_local_ordered(g.node) if isinstance(st, ast.Assign) and norm(st.targets[0]).endswith('.name') and isinstance(st.value, ast.JoinedStr)]
-    n0 = [st for st in walk_local_ordered(g.node) if isinstance(st, ast.Assign) and norm(st.targets[0]) == 'next_instance_number']
-    inc = [st for st in walk_local_ordered(g.node) if isinstance(st, ast.AugAssign) and norm(st.target) == 'next_instance_number']
-    okr = len(ren) == 1 and [norm(v.value) for v in ren[0].value.values if isinstance(v, ast.FormattedValue)] == ['instance_name', 'next_instance_number', f'{g.params[1]}.type'] and len(n0) == 1 and norm(n0[0].value) == '2' and len(inc) == 1 and norm(inc[0].value) == '1'
+    okr = False
+    if len(ren) == 1:
+        parts = [v.value for v in ren[0].value.values if isinstance(v, ast.FormattedValue)]
+        lits = [v.value for v in ren[0].value.values if isinstance(v, ast.Constant)]
+        if len(parts) == 3 and lits == ['-', '.'] and all(isinstance(x, ast.Name) for x in parts[:2]) and norm(parts[2]) == f'{g.params[1]}.type':
+            inst_v, num_v = parts[0].id, parts[1].id
+            inst_def = [st.value for st in walk_local_ordered(g.node) if isinstance(st, ast.Assign) and norm(st.targets[0]) == inst_v]
+            n0 = [st for st in walk_local_ordered(g.node) if isinstance(st, ast.Assign) and norm(st.targets[0]) == num_v]
+            inc = [st for st in walk_local_ordered(g.node) if isinstance(st, ast.AugAssign) and norm(st.target) == num_v]
+            okr = len(inst_def) == 1 and isinstance(inst_def[0], ast.Call) and call_name(inst_def[0]) == 'instance_name_from_service_info' and len(n0) == 1 and norm(n0[0].value) == '2' and len(inc) == 1 and norm(inc[0].value) == '1' and isinstance(inc[0].op, ast.Add)
     obs.append(ob(R, g, ren[0] if ren else 'info.name = ...', "renaming proceeds through '<instance>-2', '-3', ... under the same type", okr))
     # cooperating responders skip probing
     oc3, _ = traces(ctx, g, {g.params[3]: True}, lambda n, e: ['SEND' for c in n.calls() if call_name(c) == 'async_send'], loop_bound=1)
@@ -139,17 +175,18 @@ def const(ctx: Any) -> List[Ob]:
         v = prog.const(mod, nm)
         obs.append(ob(R, ('src/zeroconf/' + ('const.py' if mod.endswith('const') else '_core.py'), '<module>'), f'{nm} = {v}', f'{nm} is {want}', v == want))
     g = zc.methods['async_check_service']
-    inc = [st for st in walk_local_ordered(g.node) if isinstance(st, ast.AugAssign) and norm(st.target) == 'next_time']
+    roles = _probe_roles(ctx, g)
+    inc = [st for st in walk_local_ordered(g.node) if isinstance(st, ast.AugAssign) and norm(st.target) == roles['next_time']]
     obs.append(ob(R, g, inc[0] if inc else 'next_time += _CHECK_TIME', 'successive probes are one check interval apart', len(inc) == 1 and isinstance(inc[0].op, ast.Add) and norm(inc[0].value) == '_CHECK_TIME'))
     wh = [n for n in walk_local_ordered(g.node) if isinstance(n, ast.While) and 'REGISTER_BROADCASTS' in norm(n.test)]
     ok = False
     if len(wh) == 1:
         try:
-            p, op = lf.comparison(prog, g.module, wh[0].test, lambda x: 'I' if isinstance(x, ast.Name) and x.id == 'i' else None)
+            p, op = lf.comparison(prog, g.module, wh[0].test, lambda x: 'I' if isinstance(x, ast.Name) and x.id == roles['counter'] else None)
             ok = lf.same_cmp((p, op), lf.parse_cmp('I - 3 < 0'))
         except lf.NotLinear:
             pass
-    cnt = [st for st in walk_local_ordered(g.node) if isinstance(st, ast.AugAssign) and norm(st.target) == 'i']
+    cnt = [st for st in walk_local_ordered(g.node) if isinstance(st, ast.AugAssign) and norm(st.target) == roles['counter']]
     cfg = cfg_of(g.node)
     sends = cfg.nodes_calling('async_send')
     cnt_nodes = [n for n in cfg.nodes if n.kind == 'stmt' and n.ast in cnt]
@@ -160,7 +197,7 @@ def const(ctx: Any) -> List[Ob]:
     okw = False
     if len(waits) == 1:
         try:
-            okw = lf.poly(prog, g.module, waits[0].args[0], lambda x: x.id if isinstance(x, ast.Name) else None) == lf.parse_poly('next_time - now')
+            okw = lf.poly(prog, g.module, waits[0].args[0], lambda x: ('next_time' if x.id == roles['next_time'] else ('now' if x.id == roles['now'] else x.id)) if isinstance(x, ast.Name) else None) == lf.parse_poly('next_time - now')
         except lf.NotLinear:
             pass
     obs.append(ob(R, g, waits[0] if waits else 'async_wait', 'between probes the registration waits for exactly the time remaining to the next probe (and wakes early on new records)', okw))
@@ -174,8 +211,9 @@ def const(ctx: Any) -> List[Ob]:
 
     cfgb = cfg_of(b.node)
     lp = [n for n in cfgb.nodes if n.kind == 'for']
-    first, _ = fd.run_paths(prog, b.module, cfgb, {'i': 0}, eff, start=lp[0], stop=lambda n: n is lp[0], loop_bound=1, for_iter=lambda n, e: True)
-    later, _ = fd.run_paths(prog, b.module, cfgb, {'i': 1}, eff, start=lp[0], stop=lambda n: n is lp[0], loop_bound=1, for_iter=lambda n, e: True)
+    ivar = norm(lp[0].ast.target)
+    first, _ = fd.run_paths(prog, b.module, cfgb, {ivar: 0}, eff, start=lp[0], stop=lambda n: n is lp[0], loop_bound=1, for_iter=lambda n, e: True)
+    later, _ = fd.run_paths(prog, b.module, cfgb, {ivar: 1}, eff, start=lp[0], stop=lambda n: n is lp[0], loop_bound=1, for_iter=lambda n, e: True)
     obs.append(ob(R, b, 'if i != 0: await asyncio.sleep(...)', 'the first announcement goes out at once, later ones after the interval', {strip_ret(t) for t in first} == {('SEND',)} and {strip_ret(t) for t in later} == {('SLEEP', 'SEND')}))
     return obs
 
